@@ -34,10 +34,10 @@ def restrict(f3, keep):
 def one_input(args):
     seed, idx, workroot = args
     rng = random.Random(seed * 92821 + idx)
-    inp = pipecases.make_input(rng, n_refs=3, n_qry=9, ref_labels=(60, 130),
-                               kinds=["noisy", "indel", "split", "mirror", "dropped", "chimeric", "partial", "exact", "junk"])
+    inp = pipecases.make_input(rng, n_refs=3, n_qry=9, ref_labels=(60, 130), small_ids=(idx % 2 == 1),
+                               kinds=["split", "noisy", "split", "mirror", "dropped", "chimeric", "partial", "exact", "junk"])
     extra = pipe_common.PARAM_VECTORS[idx % len(pipe_common.PARAM_VECTORS)]
-    mode = ["all", "best", "joined", "separate"][idx % 4]
+    mode = ["all", "best", "joined", "separate", "best"][idx % 5]
     wd = os.path.join(workroot, f"c10-{os.getpid()}-{idx}")
     lines, tags = [], []
     try:
@@ -50,7 +50,10 @@ def one_input(args):
         # V1: two queries removed, the rest reordered
         keep = qids[:]
         rng.shuffle(keep)
-        keep = keep[:-2]
+        if idx % 2 == 1:      # remove the first query of the file (with small ids: the one whose id equals a reference id)
+            keep = [q for q in keep if q != qids[0]][:-1]
+        else:
+            keep = keep[:-2]
         rp1, qp1 = pipecases.write_input(wd, inp, "v1", qsel=set(keep), qorder=keep)
         v1 = pipecases.run_once(wd, rp1, qp1, "v1", mode, extra)
         status["removed_reordered"] = v1["status"]
